@@ -39,6 +39,7 @@ Definition mon_k (s : stream) : nat := match mon_map s with Some k => k | None =
 Record Inv1 (s : stream) : Prop := {
   i_base : base s <= length (log s);
   i_cur : sink_cur s + mapped_k (k_pc s) <= length (log s);
+  i_pend : pending (k_pc s) <= mapped_k (k_pc s);
   i_map : sink_map s = if Nat.eqb (mapped_k (k_pc s)) 0 then None else Some (mapped_k (k_pc s));
   i_srun : src_running s = negb (src_gone (s_pc s));
   i_krun : sink_running s = negb (match k_pc s with KOff | KExiting | KDone => true | _ => false end);
@@ -58,9 +59,7 @@ Ltac fin1 := cbn in *; try congruence; try lia; auto.
 Lemma inv1_step s a e s' : Inv1 s -> step_stream s a e = Some s' -> Inv1 s'.
 Proof.
   intros [] H.
-  step_cases H; rew_eqs; constructor; cbn; split_goal_ifs; rew_eqs; cbn in *; bool_hyps;
-    try congruence; try lia; auto;
-    try (rewrite app_length; cbn; lia);
-    try (intros; discriminate);
-    try (split; congruence).
-  Show. all: idtac. Abort.
+  step_cases s H; unfold quiet, workers_idle, sink_finish, mon_k in *; cbn in *; constructor; unfold quiet, workers_idle, mon_k; cbn;
+    try reflexivity; try assumption; split_goal_ifs; fin;
+    try (rewrite app_length; cbn; lia).
+Qed.
